@@ -31,6 +31,9 @@ fn model_inputs(regs: &[MVal], text_regs: &[usize]) -> Vec<MVal> {
 pub struct Case {
     pub regs: Vec<MVal>,
     pub steps: Vec<ChainStep>,
+    /// the whole history appends to ONE output buffer (and one offsets vector), the way a column builder does;
+    /// each step's result is the slice it appended
+    pub shared_buffer: bool,
 }
 
 pub struct Chain;
@@ -161,7 +164,7 @@ impl Scenario for Chain {
             }
             steps.push(ChainStep { op, dst, text_regs });
         }
-        Case { regs, steps }
+        Case { regs, steps, shared_buffer: r.chance(1, 4) }
     }
 
     fn exec(&self, case: &Case, stats: &mut Stats) -> RunOut<Case> {
@@ -171,6 +174,11 @@ impl Scenario for Chain {
         let mut violation: Option<Viol> = None;
         let mut ok_steps = 0u64;
         let mut prev_kind: Option<&'static str> = None;
+        let mut shared_buf: Vec<u8> = Vec::new();
+        let mut shared_offs: Vec<u64> = Vec::new();
+        if case.shared_buffer {
+            stats.inc("probe/shared_buffer_history");
+        }
         for (si, st) in case.steps.iter().enumerate() {
             let op = &st.op;
             let name = op.name();
@@ -202,7 +210,17 @@ impl Scenario for Chain {
             };
             let mut buf = Vec::new();
             let mut offs = Vec::new();
-            let got = match guard(|| ops::call(op, &args, &mregs, &mut buf, &mut offs)) {
+            let got = if case.shared_buffer {
+                let (b0, o0) = (shared_buf.len(), shared_offs.len());
+                let g = guard(|| ops::call(op, &args, &mregs, &mut shared_buf, &mut shared_offs));
+                // this step's result is what it appended; offsets are positions in the shared buffer
+                buf = shared_buf.get(b0..).map(|s| s.to_vec()).unwrap_or_default();
+                offs = shared_offs.get(o0..).map(|s| s.iter().map(|o| o.wrapping_sub(b0 as u64)).collect()).unwrap_or_default();
+                g
+            } else {
+                guard(|| ops::call(op, &args, &mregs, &mut buf, &mut offs))
+            };
+            let got = match got {
                 Ok(g) => g,
                 Err(p) => {
                     violation = Some(Viol { class: format!("panic:{name}:{}", p.loc), detail: format!("step {si} ({name}) panicked at {}: {}", p.loc, p.msg) });
@@ -337,6 +355,11 @@ impl Scenario for Chain {
     fn shrink(&self, case: &Case) -> Vec<Case> {
         let mut out = vec![];
         let n = case.steps.len();
+        if case.shared_buffer {
+            let mut c = case.clone();
+            c.shared_buffer = false;
+            out.push(c);
+        }
         if n > 1 {
             // the violating step is the last executed one: try it alone, then drop prefixes / single steps
             for keep in [1usize, 2, 3] {
@@ -404,6 +427,7 @@ impl Scenario for Chain {
             "registers_json": case.regs.iter().map(mval::to_json).collect::<Vec<_>>(),
             "registers_hex": case.regs.iter().map(|r| mval::hex(&mval::encode(r))).collect::<Vec<_>>(),
             "history": case.steps.iter().map(|s| json!({"call": s.op.to_json(), "dst": s.dst, "text_regs": s.text_regs})).collect::<Vec<_>>(),
+            "shared_buffer": case.shared_buffer,
         })
     }
 
@@ -417,7 +441,7 @@ impl Scenario for Chain {
                 text_regs: s["text_regs"].as_array().map(|a| a.iter().filter_map(|x| x.as_u64().map(|v| v as usize)).collect()).unwrap_or_default(),
             });
         }
-        Ok(Case { regs, steps })
+        Ok(Case { regs, steps, shared_buffer: j["shared_buffer"].as_bool().unwrap_or(false) })
     }
 
     fn size(&self, case: &Case) -> J {
@@ -429,7 +453,8 @@ impl Scenario for Chain {
          of the editing, set, extraction, building and path-selection functions, with arguments derived from the documents currently in the registers (existing / \
          case-variant / missing keys, indices from -len-1..len+1, key paths and JSONPaths built by walking the document, optionally overshooting); each result is \
          written back into registers and feeds later steps; in some runs a seeded fraction of document arguments is handed over as JSON text rendered from the tree \
-         (the functions' text branch) instead of JSONB. After every step the four oracles run. distinct_nontrivial = histories with at least two successful steps \
+         (the functions' text branch) instead of JSONB, and one history in four appends every result to one shared output buffer and offsets vector \
+         (each result is then the slice its step appended). After every step the four oracles run. distinct_nontrivial = histories with at least two successful steps \
          whose final register file (64-bit hash of all register bytes) had not been reached by another history of this run; states = distinct result documents."
             .into()
     }
@@ -470,6 +495,7 @@ impl Scenario for Chain {
             "probe/multi_result_step",
             "probe/empty_selection",
             "probe/text_argument_step",
+            "probe/shared_buffer_history",
         ]
     }
 }
